@@ -526,7 +526,7 @@ def cholesky_band(l, mininf=0.0):
     #
     # Restore padding.
     #
-    L = np.zeros(l.shape, dtype=l.dtype)
+    L = np.zeros(l.shape, dtype=(l.dtype if l.dtype.kind == 'f' else 'd'))
     L[:, 0:n] = lower
     return (-1, L)
 
@@ -555,7 +555,7 @@ def cholesky_solve(a, bb):
     """
     bw = a.shape[0]
     n = bb.shape[0] - bw
-    x = np.zeros(bb.shape, dtype=bb.dtype)
+    x = np.zeros(bb.shape, dtype=(bb.dtype if bb.dtype.kind == 'f' else 'd'))
     x[0:n] = cho_solve_banded((a[:, 0:n], True), bb[0:n])
     return x
 
